@@ -102,8 +102,22 @@ func (p Projector) date(has bool, t time.Time) int {
 	if !p.zoneOK(t) {
 		return wrongZone
 	}
+	// the instant time.Date gives for 00:00 of a pool date (where local midnight does not exist, the property does
+	// not say which instant stands for it; the civil day's first instant is accepted below as well)
+	for i, d := range Dates {
+		if i == 0 {
+			continue
+		}
+		day, _ := time.Parse("20060102", d)
+		if t.Equal(time.Date(day.Year(), day.Month(), day.Day(), 0, 0, 0, 0, p.Zone)) {
+			return i
+		}
+	}
 	// civil midnight of a pool date, read in the expected zone
 	l := t.In(p.Zone)
+	if prev := t.Add(-time.Second).In(p.Zone); prev.Day() != l.Day() && l.Hour() == 1 && l.Minute() == 0 && l.Second() == 0 && l.Nanosecond() == 0 {
+		l = time.Date(l.Year(), l.Month(), l.Day(), 0, 0, 0, 0, time.UTC) // the first instant of a day that starts at 01:00
+	}
 	if l.Hour() != 0 || l.Minute() != 0 || l.Second() != 0 || l.Nanosecond() != 0 {
 		return notInPool - 1
 	}
